@@ -23,15 +23,31 @@ pub fn gen_logical(map_seed: u64, mask: u64) -> Logical {
     let mut rng = Prng::new(map_seed);
     let names = valgen::gen_names(&mut rng);
     let mut entries = Vec::new();
+    // one map in four is "correlated": its entries share their bytes (same digits at different types)
+    let correlated = rng.below(4) == 0;
+    if correlated {
+        let mut pool = [0u8; 32];
+        match rng.below(4) {
+            0 => {}
+            1 => pool = [0xff; 32],
+            _ => {
+                for x in pool.iter_mut() {
+                    *x = rng.below(256) as u8;
+                }
+            }
+        }
+        valgen::set_pool(Some(pool));
+    }
     for (i, n) in names.into_iter().enumerate() {
         let mut r = rng.fork();
         let depth = r.below(4);
-        let ty = valgen::gen_type(&mut r, depth);
+        let ty = if correlated { valgen::gen_type_correlated(&mut r) } else { valgen::gen_type(&mut r, depth) };
         let v = valgen::gen_value(&mut r, &ty);
         if mask & (1 << i) != 0 {
             entries.push((n, ty, v));
         }
     }
+    valgen::set_pool(None);
     entries.sort_by(|a, b| a.0.cmp(&b.0));
     Logical { entries }
 }
@@ -446,9 +462,11 @@ pub fn run(o: &Opts) -> i32 {
         let shards = o.shards;
         let seed = o.seed;
         let quick_stride = if thorough { 1 } else { 3 };
+        let mut lines: Vec<String> = Vec::new();
         let (viols, items): (Vec<(usize, crate::sweep::SweepViol)>, u64) = {
             let st = &mut st;
             let small = &small;
+            let lines = &mut lines;
             seam::epoch(mix(o.seed ^ tag("sweep") ^ o.shard as u64) | 1, move || {
                 let mut v = Vec::new();
                 let mut n = 0u64;
@@ -457,11 +475,13 @@ pub fn run(o: &Opts) -> i32 {
                         continue;
                     }
                     // quick: every third small type (a different third for each seed)
-                    if i < small.len() && (i / shards + seed as usize) % quick_stride != 0 {
+                    if i < small.len() && (i + seed as usize) % quick_stride != 0 {
                         continue;
                     }
                     n += 1;
-                    if let Err(e) = crate::sweep::item(i, seed, small, st) {
+                    let r = crate::sweep::item(i, seed, small, st);
+                    lines.push(format!("C15\tsweep {i}\t-> {}", r.as_ref().err().map(|e| e.class).unwrap_or("ok")));
+                    if let Err(e) = r {
                         if v.len() < 3 {
                             v.push((i, e));
                         }
@@ -476,7 +496,9 @@ pub fn run(o: &Opts) -> i32 {
         rep.count("sweep_types_enumerated_exhaustively", st.types_exhaustive);
         rep.count("sweep_values", st.values);
         rep.count("sweep_values_from_exhaustive_enumeration", st.values_exhaustive);
-        rep.event(&format!("C15\tsweep shard {}\titems={items}\ttypes={}\tvalues={}\tviolations={}", o.shard, st.types, st.values, viols.len()));
+        for l in &lines {
+            rep.event(l);
+        }
         for (i, v) in viols {
             let path = o.verif.join("replays").join(format!("C15-sweep-{}-{}.json", o.seed, i));
             let scenario = format!("{} sweep type={}", v.class, v.ty);
